@@ -118,9 +118,26 @@ Choose ==
 \* two grouped axes at once: the 4-d template regrouped into two pairs, for every order of the dimensions
 ChooseTwoGroups ==
   /\ ph = 0 /\ ph' = 1 /\ out' = out
-  /\ \E p \in {q \in OrdSubsets(4) : Len(q) = 4} :
-       LET a == ArrN(4) IN
-       in' = [NoIn EXCEPT !.op = "reshape", !.a = a, !.groups = << <<a.dims[p[1]], a.dims[p[2]]>>, <<a.dims[p[3]], a.dims[p[4]]>> >>]
+  /\ \E p \in {q \in OrdSubsets(4) : Len(q) = 4} : \E addn \in 0..3 : \E inn \in 0..2 :
+       LET a == ArrN(4)
+           g1 == <<a.dims[p[1]], a.dims[p[2]]>>
+           g2 == <<a.dims[p[3]], a.dims[p[4]]>>
+           \* a new singleton "n" as a group of its own before / between / after the pairs, or as the first member of a pair
+           gs == CASE addn = 0 /\ inn = 0 -> <<g1, g2>>
+                   [] addn = 0 /\ inn = 1 -> << <<"n">> \o g1, g2>>
+                   [] addn = 0 /\ inn = 2 -> <<g1, <<"n">> \o g2>>
+                   [] OTHER -> InsertAt(<<g1, g2>>, addn, <<"n">>)
+       IN /\ (addn > 0 => inn = 0)
+          /\ in' = [NoIn EXCEPT !.op = "reshape", !.a = a, !.groups = gs]
+\* three groups out of four dimensions plus the new singleton, followed by a plain dimension
+ChooseThreeGroups ==
+  /\ ph = 0 /\ ph' = 1 /\ out' = out
+  /\ \E p \in {q \in OrdSubsets(4) : Len(q) = 4} : \E w \in 1..3 :
+       LET a == ArrN(4)
+           gs == CASE w = 1 -> << <<a.dims[p[1]], "n">>, <<a.dims[p[2]], a.dims[p[3]]>>, <<a.dims[p[4]]>> >>
+                   [] w = 2 -> << <<a.dims[p[1]]>>, <<a.dims[p[2]], "n">>, <<a.dims[p[3]], a.dims[p[4]]>> >>
+                   [] w = 3 -> << <<a.dims[p[1]], a.dims[p[2]]>>, <<a.dims[p[3]]>>, <<"n", a.dims[p[4]]>> >>
+       IN in' = [NoIn EXCEPT !.op = "reshape", !.a = a, !.groups = gs]
 
 Apply ==
   /\ ph = 1 /\ ph' = 2 /\ in' = in
@@ -129,7 +146,7 @@ Apply ==
                  IN [r |-> f, back |-> UnflattenAll(f)]
             ELSE LET r == Reshape(in.a, in.groups) IN [r |-> r, back |-> UnflattenAll(r)]
   /\ (Emit => PrintT(ToJson([op |-> in.op, in |-> in, out |-> out'])))
-Next == Choose \/ ChooseTwoGroups \/ Apply
+Next == Choose \/ ChooseTwoGroups \/ ChooseThreeGroups \/ Apply
 Spec == Init /\ [][Next]_vars
 
 (* ---------- theorems ---------- *)
